@@ -116,7 +116,14 @@ def r4_writer(idx, r):
     dumps = [c for c in iter_calls(p.node) if call_attr(c) == "dump" and isinstance(c.func, ast.Attribute)]
     r.require(bool(dumps), "values-through-dump", p, msg="values must be written through Setting.dump()")
     ver = [s for s in iter_stores(p.node) if s.kind == "subscript" and s.chain == "cleanedData" and norm(s.node.slice) == "CONF_VERSIONS"]
-    okv = all([(norm(t), pol) for t, pol in path_conditions(p.node, s.stmt)] == [("CONF_VERSIONS not in cleanedData", True)] for s in ver)
+    def keeps_user_entries(s):
+        conds = [(norm(t), pol) for t, pol in path_conditions(p.node, s.stmt)]
+        if conds == [("CONF_VERSIONS in cleanedData", False)]:
+            return True  # created only when absent
+        v = s.value  # or rebuilt FROM the existing entries: dict(D.get(K, {})) / D[K].copy() / {**D[K]}
+        txt = norm(v) if v is not None else ""
+        return "cleanedData.get(CONF_VERSIONS" in txt or "cleanedData[CONF_VERSIONS]" in txt
+    okv = all(keeps_user_entries(s) for s in ver)
     r.require(okv, "versions-preserved", p, node=ver[0].stmt if ver else None, msg="the `versions` mapping may be created only when absent: replacing it drops the entries the user set")
     r.require(any(s.kind == "subscript" and norm(s.node) == "cleanedData[CONF_VERSIONS]['armi']" for s in iter_stores(p.node)), "armi-version-recorded", p, msg="the armi version is added to the mapping")
     tag = w.methods.get("_getTag")
@@ -335,6 +342,42 @@ def r7_default_in_schema(idx, r):
         raise AnalysisError(f"only {n} Setting(...) definitions with literal defaults found")
 
 
+def r8_writer_does_not_mutate(idx, r):
+    """Writing a settings file must leave the settings object as it was. The writer collects `setting.dump()` results -
+    for container settings that IS the live value - into a mapping; any later in-place edit of an entry of that mapping
+    (stamping the armi version into `versions`) edits the setting itself unless the entry was copied first."""
+    f = idx.method(IO + ".SettingsWriter", "_preprocessYaml")
+    if f is None:
+        raise AnchorMissing("SettingsWriter._preprocessYaml")
+    live = set()   # mappings whose entries alias live values
+    for st in iter_stores(f.node):
+        if st.kind == "subscript" and isinstance(st.node, ast.Subscript) and isinstance(st.node.value, ast.Name) and isinstance(st.value, ast.Call) and call_attr(st.value) == "dump":
+            live.add(st.node.value.id)
+    if not live:
+        raise AnchorMissing("_preprocessYaml: collection of setting.dump() results")
+    n = 0
+    for st in iter_stores(f.node):
+        nd = st.node
+        if st.kind in ("subscript", "subscript-aug", "mutcall") and isinstance(nd, (ast.Subscript, ast.Attribute)):
+            inner = nd.value if isinstance(nd, ast.Subscript) else nd
+            # D[k][j] = v   /  D[k].update(...)
+            tgt = inner if isinstance(inner, ast.Subscript) else None
+            if st.kind == "mutcall" and isinstance(nd, ast.Subscript):
+                tgt = nd
+            if tgt is not None and isinstance(tgt.value, ast.Name) and tgt.value.id in live:
+                n += 1
+                key = norm(tgt.slice)
+                # fresh when the same entry was (re)bound to a copy earlier in the function
+                fresh = any(s2.kind == "subscript" and isinstance(s2.node, ast.Subscript) and isinstance(s2.node.value, ast.Name) and s2.node.value.id == tgt.value.id and norm(s2.node.slice) == key
+                            and isinstance(s2.value, (ast.Dict, ast.Call)) and not (isinstance(s2.value, ast.Call) and call_attr(s2.value) == "dump") and s2.stmt.lineno < st.stmt.lineno
+                            and not [c for c, pol in path_conditions(f.node, s2.stmt) if True] for s2 in iter_stores(f.node))
+                r.require(fresh, f"in-place-edit:{norm(st.stmt)[:60]}", f, node=st.stmt,
+                          msg=f"`{norm(st.stmt)[:70]}` edits an entry of `{tgt.value.id}`, whose entries are the live values returned by setting.dump(): writing a file "
+                              "changes the settings object it writes (the `versions` setting of the ORIGINAL gains/overwrites a key)")
+    if n == 0:
+        r.ok("no-in-place-edit", f, msg="no entry of the collected values is edited in place")
+
+
 def run(idx, chk):
     chk.explanation = (
         "C17: schema validation dominating the store in Setting.setValue and the frozen writers of Setting._value; the renamed name being the one "
@@ -352,3 +395,5 @@ def run(idx, chk):
     chk.run_rule("R17.6", "the two serialisers of cross-section options omit exactly the None values", lambda r: r6_xs_serialisers(idx, r), floor=5, necessary="nested cross-section settings round trip incl. explicit False/0")
     chk.run_rule("R17.7", "every setting's default is accepted unchanged by its own schema / enforced options", lambda r: r7_default_in_schema(idx, r), floor=100,
                  necessary="'settings left at default stay at default' in every style: the full style writes defaults and reading validates them")
+    chk.run_rule("R17.8", "the writer never edits in place a value it obtained from setting.dump()", lambda r: r8_writer_does_not_mutate(idx, r), floor=1,
+                 necessary="a settings object is the same before and after being written; written and original must agree")
